@@ -21,7 +21,9 @@ WEIGHTS = {'add_node': 6, 'add_node_dup': 1, 'link': 8, 'remove_node': 4, 'add_a
            # an attacker / node object that is already part of the graph (same id, other id, no id)
            'add_attacker_bad': 2, 'add_attacker_used_id': 1, 'add_attacker_again': 1, 'add_node_again': 1,
            # a deep copy is a graph of its own: both sides stay consistent whichever of the two is operated on afterwards
-           'deepcopy': 1, 'switch': 1}
+           'deepcopy': 1, 'switch': 1,
+           # ... and so is a graph written to a file and loaded back (with or without the model)
+           'save_load': 1}
 
 def check_history(pid, ops, res: Result, oracle, model_out=None):
     """returns list of Violation for one history"""
